@@ -143,6 +143,20 @@ def vp_assume(ex, st, fr, ins, args):
     return None
 
 
+@intercept('vph/vp.AssumeEq')
+def vp_assume_eq(ex, st, fr, ins, args):
+    a, b = args[0], args[1]
+    if fpops.is_conc(a) and fpops.is_conc(b):
+        if abs(a.v - b.v) <= args[2].v * (1 + abs(b.v)):
+            return None
+        raise PathEnd('assume-false')
+    if not (fpops.is_real(a) or fpops.is_real(b)):
+        raise EngineError('vp.AssumeEq is for the exact-real reading')
+    c = fpops.fcmp('==', a, b)
+    ex.res.assumptions.add('lemma assumed by the harness (vp.AssumeEq): see the harness comment')
+    return vp_assume(ex, st, fr, ins, [c])
+
+
 @intercept('vph/vp.Assert')
 def vp_assert(ex, st, fr, ins, args):
     c = args[0]
@@ -402,7 +416,8 @@ def _trig(name, lo, hi, contract):
         uf = _uf(name)
         ex.res.stubs.add('math.%s: uninterpreted function, contract: %s' % (name.capitalize(), contract))
         if fpops.is_real(a):
-            r = uf(a.v)
+            # normalise the argument (linear arithmetic, sum of monomials): (d*2)/2 and d are one term
+            r = uf(z3.simplify(a.v, som=True))
             CTX.pending.append(z3.And(r >= lo, r <= hi))
             return FV(64, r)
         t = fpops.term(a)
